@@ -52,8 +52,48 @@ def run(res, proofs_ok, proofs_why):
                        "how_to_replay": "./check C13 --replay <this file>"})
     elif diffs:
         res.violation({"property": "C13", "kind": "obligation", "obligation": "correspondence:poller vs Poller.poll_run", "first_differences": diffs[:3]}, found_input=False)
+    refid_part(res)
     if not proofs_ok:
         res.violation({"property": "C13", "kind": "obligation", "obligation": proofs_why}, found_input=False)
+
+
+def refid_part(res):
+    """the value parser of --phc-ref-id (refid_to_u32) against Cli.refid_of: strings of 0..6 bytes,
+    ASCII and not; oracle: a four-character ASCII name is the big-endian number of its bytes"""
+    import random
+    rng = random.Random(res.seed * 131 + 13)
+    alphabet = list("PHC0123phc GNS\x00\x7f~") + ["\u00e9", "\u20ac", "\u00ff"]
+    names = ["PHC0", "phc0", "PHC", "PH", "", "PHC00", "GPS", "NMEA", "\u00e9HC0", "PHC\x00", "\x00PHC"]
+    for _ in range(300 if res.tier == "quick" else 20000):
+        names.append("".join(rng.choice(alphabet) for _ in range(rng.randrange(0, 6))))
+    lines, bs = [], []
+    for nm in names:
+        b = nm.encode("utf-8")
+        bs.append(b)
+        lines.append("rid %d %s" % (len(b), " ".join(str(x) for x in b)))
+    impl = c.run_lines(c.build_harness("debug")[0], lines)
+    model = c.run_model(lines)
+    res.evaluations += len(lines)
+    res.count("gen:reference id strings", len(lines))
+    bad, diffs = [], []
+    for nm, b, ln, i, m in zip(names, bs, lines, impl, model):
+        if i != m:
+            diffs.append({"case": ln, "string": repr(nm), "impl": i, "model": m})
+        ascii4 = len(b) == 4 and all(x < 128 for x in b)
+        if ascii4:
+            res.nontriv(ln)
+            want = "ok %d" % int.from_bytes(b, "big")
+            if i != want:
+                bad.append({"case": ln, "string": repr(nm), "impl": i, "why": ["the reference id of the four-character name %r must be %s (its bytes, big endian): "
+                                                                                "with another value the PHC term is attached to the wrong reference, or to none" % (nm, want)]})
+        elif (len(b) > 4 or any(x >= 128 for x in b)) and i != "rejected":
+            bad.append({"case": ln, "string": repr(nm), "impl": i, "why": ["a name that is not at most four ASCII characters must be refused"]})
+    res.oblige("correspondence:refid_to_u32 vs Cli.refid_of", not diffs)
+    if bad:
+        res.violation({"property": "C13", "kind": "input", "case": bad[0], "others": [b["case"] for b in bad[1:4]],
+                       "predicate": "configured reference id = big-endian number of the name's four ASCII bytes"})
+    elif diffs:
+        res.violation({"property": "C13", "kind": "obligation", "obligation": "correspondence:refid_to_u32 vs Cli.refid_of", "first_differences": diffs[:3]}, found_input=False)
 
 
 def replay(res, path):
